@@ -236,6 +236,10 @@ def _case(draw):
             # shift so that shapes overlap each other partially
             dx, dy = draw(st.integers(-3, 6)), draw(st.integers(-3, 6))
             shapes.append(gen.apply_xf(kind, el, {'m': 1, 'tx': dx, 'ty': dy, 'q': 1}) if el else el)
+    rsub = draw(st.sampled_from(['float64', 'float32', 'int64', 'int16']))
+    if rsub.startswith('float') and draw(st.booleans()):
+        # fractional vertices (halves): the exact test must use the shape as stored, not a copy cast to the points' subtype
+        shapes = [gen.apply_xf(kind, el, {'m': 1, 'tx': 1, 'ty': -1, 'q': 2}) if el else el for el in shapes]
     fl = [v for s in shapes if s is not None for v in model.flat_coords(kind, s)]
     if fl:
         x0, x1, y0, y1 = min(fl[0::2]) - 1, max(fl[0::2]) + 1, min(fl[1::2]) - 1, max(fl[1::2]) + 1
@@ -245,6 +249,10 @@ def _case(draw):
     halves = lsub.startswith('float')
     # candidate lattice points around the shapes, classified by the exact oracle; on-ring candidates are dropped
     step = 0.5 if halves else 1
+    if not halves:
+        # integer point subtypes hold integer coordinates only
+        import math
+        x0, y0, x1, y1 = math.floor(x0), math.floor(y0), math.ceil(x1), math.ceil(y1)
     nxs = int((x1 - x0) / step) + 1
     nys = int((y1 - y0) / step) + 1
     stride = max(1, int(((nxs * nys) / 400) ** 0.5) + (1 if nxs * nys > 400 else 0))
@@ -277,7 +285,7 @@ def _case(draw):
             pts.append(None)
     same = draw(st.integers(0, 4)) == 0
     suf = draw(st.sampled_from([['left', 'right'], ['left', 'right'], ['l', 'r'], ['x', 'y']]))
-    return {'right_kind': kind, 'right_shapes': shapes, 'right_subtype': draw(st.sampled_from(['float64', 'float32', 'int64', 'int16'])),
+    return {'right_kind': kind, 'right_shapes': shapes, 'right_subtype': rsub,
             'left_points': pts, 'left_subtype': lsub, 'how': draw(st.sampled_from(['inner', 'left', 'right'])),
             'lsuffix': suf[0], 'rsuffix': suf[1], 'clash': draw(st.booleans()),
             'left_index': draw(st.sampled_from(['default', 'named', 'nonunique', 'strings'])),
